@@ -429,7 +429,7 @@ def check(tier, seed, t0):
     c = merged["counters"]
     k = 1 if not th else 10
     stored = c.get("names_stored", 0)
-    guards = [("names stored", stored, 800 * k), ("hrefs dereferenced", c.get("hrefs_dereferenced", 0), 6000 * k),
+    guards = [("names stored", stored, 800 * k), ("hrefs dereferenced", c.get("hrefs_dereferenced", 0), 6000 * (1 if not th else 7)),
               ("share of generated names stored (percent)", 100 * stored // max(1, c.get("names_tried", 0)), 80)]
     for f in ("colon", "question", "hash", "semicolon", "percent", "space", "plus", "nonascii", "other-special", "pct-escape-literal"):
         guards.append(("stored names with feature " + f, c.get("stored:" + f, 0), 3))
